@@ -20,6 +20,12 @@ func (x *Exec) newFrame(fn *ssa.Function, parent *Frame) *Frame {
 	return fr
 }
 
+// isRotated: go/ssa emits `for i := range n` with the condition duplicated in
+// the latch; the loop header is the body block.
+func isRotated(li *loopInfo) bool {
+	return li.header.Comment == "rangeint.body"
+}
+
 type edgeIn struct {
 	pred *ssa.BasicBlock
 	st   *State
@@ -165,7 +171,7 @@ func (fr *Frame) run(st *State, args []*Val) (*State, []*Val) {
 		send := func(succ *ssa.BasicBlock, s *State) {
 			if succ.Dominates(b) {
 				if li := fr.loops[succ]; li != nil {
-					if _, isIf := b.Instrs[len(b.Instrs)-1].(*ssa.If); !isIf {
+					if _, isIf := b.Instrs[len(b.Instrs)-1].(*ssa.If); !isIf || !isRotated(li) {
 						fr.backEdge(s, li, false)
 					}
 				}
@@ -182,7 +188,7 @@ func (fr *Frame) run(st *State, args []*Val) (*State, []*Val) {
 			checked := map[*loopInfo]bool{}
 			for _, s := range b.Succs {
 				if s.Dominates(b) {
-					if li := fr.loops[s]; li != nil && !checked[li] {
+					if li := fr.loops[s]; li != nil && !checked[li] && isRotated(li) {
 						checked[li] = true
 						fr.backEdge(cur, li, true)
 					}
@@ -201,6 +207,9 @@ func (fr *Frame) run(st *State, args []*Val) (*State, []*Val) {
 				vals[i] = fr.val(cur, r)
 			}
 			fr.rets = append(fr.rets, &retRec{cur, vals})
+			if fr.depth == 0 {
+				x.cover(cur, "return "+x.w.nodeTextAt(t.Pos()), t.Pos())
+			}
 		case *ssa.Panic:
 			txt := x.w.nodeTextAt(t.Pos())
 			if fr.depth > 0 {
@@ -525,6 +534,10 @@ func (fr *Frame) enterLoop(st *State, li *loopInfo) {
 	x := fr.x
 	invs, dec := fr.loopClauses(li)
 	label := fmt.Sprintf("loop %d", li.ord)
+	if fr.loopPre == nil {
+		fr.loopPre = map[*ssa.BasicBlock]*State{}
+	}
+	fr.loopPre[li.header] = st.clone()
 	for _, c := range invs {
 		env := fr.loopEnv(st, li)
 		g, err := env.evalBool(c.Expr)
@@ -535,7 +548,19 @@ func (fr *Frame) enterLoop(st *State, li *loopInfo) {
 		x.oblige(st, "inv-entry", label+": "+c.Text, li.header.Instrs[0].Pos(), g, c.Tags, false)
 	}
 	mods := fr.loopModifies(li)
-	// havoc
+	if fr.loopPre == nil {
+		fr.loopPre = map[*ssa.BasicBlock]*State{}
+	}
+	fr.loopPre[li.header] = st.clone()
+	// havoc (allocation counter first: havocked references are bounded by it)
+	if mods.alloc || mods.all {
+		nt := x.vc.fresh("allocTop", sInt)
+		x.vc.assume(tCmp(">=", nt, st.allocTop))
+		st.allocTop = nt
+		ne := x.vc.fresh("events", sInt)
+		x.vc.assume(tCmp(">=", ne, st.events))
+		st.events = ne
+	}
 	var cells []*Cell
 	for c := range mods.cells {
 		cells = append(cells, c)
@@ -544,6 +569,7 @@ func (fr *Frame) enterLoop(st *State, li *loopInfo) {
 	for _, c := range cells {
 		old := st.cells[c]
 		nv := x.freshVal(c.name, c.ty)
+		x.refFacts(st, nv)
 		if old != nil {
 			nv.X = old.X
 			if cl, ok := old.X.(*IterState); ok {
@@ -557,14 +583,6 @@ func (fr *Frame) enterLoop(st *State, li *loopInfo) {
 	} else {
 		x.havocHeapsMatching(st, mods.heaps)
 	}
-	if mods.alloc || mods.all {
-		nt := x.vc.fresh("allocTop", sInt)
-		x.vc.assume(tCmp(">=", nt, st.allocTop))
-		st.allocTop = nt
-		ne := x.vc.fresh("events", sInt)
-		x.vc.assume(tCmp(">=", ne, st.events))
-		st.events = ne
-	}
 	st.pc = x.vc.def("pc", sBool, st.pc)
 	fr.autoLoopFacts(st, li)
 	for _, c := range invs {
@@ -574,6 +592,9 @@ func (fr *Frame) enterLoop(st *State, li *loopInfo) {
 			continue
 		}
 		x.vc.assume(tImp(st.pc, g))
+	}
+	if fr.depth == 0 {
+		x.cover(st, label+" body", li.header.Instrs[0].Pos())
 	}
 	if dec != nil {
 		env := fr.loopEnv(st, li)
@@ -646,7 +667,8 @@ func (fr *Frame) loopEnv(st *State, li *loopInfo) *SpecEnv {
 		}
 	}
 	env.vars = map[string]*Val{}
-	env.lookup = func(name string) (*Val, bool) { return fr.lookupLocal(st, name, pos) }
+	env.lookup = func(s *State, name string) (*Val, bool) { return fr.lookupLocal(s, name, pos) }
+	env.entry = fr.loopPre[li.header]
 	if k := fr.iterCount(st, li); k != "" {
 		kv := mkInt(types.Typ[types.Int], k)
 		env.vars["_k"] = kv
